@@ -411,6 +411,72 @@ def run(ctx):
     from . import c14 as _c14
     _core.run_proxied(ctx, _c14, 'R02x', ('M2e',))
 
+    # ---- R02z: an opening and a closing delimiter come from two places of the specification
+    ctx.rule('R02z', 'get_arg_parser_instance: a delimiter pair taken from the argument specification (r<c1><c2>, d<c1><c2>, '
+                     'v<c1><c2>) reads its two characters from two different positions (locals substituted, per path): a pair '
+                     'whose halves are the same subscript looks for the opening character as closing delimiter', 1)
+    sam = repo.mod('pylatexenc.latexnodes.parsers._stdarg')
+    gap = sam.functions.get('LatexStandardArgumentParser.get_arg_parser_instance')
+    if gap is None:
+        raise AnalysisError('anchor vanished: LatexStandardArgumentParser.get_arg_parser_instance')
+    try:
+        pcs = symex.Walker(is_sink=lambda c_: any(k_.arg in ('delimiters', 'delimiter_chars') for k_ in c_.keywords)).run(gap)
+    except symex.TooManyPaths:
+        pcs = []
+    n_dp, badp = 0, None
+    for cs in pcs:
+        for k_ in cs.sub.keywords:
+            if k_.arg in ('delimiters', 'delimiter_chars'):
+                v_ = symex.resolve(k_.value, cs.env)
+                if isinstance(v_, ast.Tuple) and len(v_.elts) == 2 and all(isinstance(e_, ast.Subscript) for e_ in v_.elts):
+                    n_dp += 1
+                    if unparse(v_.elts[0]) == unparse(v_.elts[1]) and badp is None:
+                        badp = (cs, v_)
+    ctx.decide('R02z', badp is None and n_dp > 0, sam, badp[0].node if badp else gap,
+               '%d delimiter pair(s) read from two positions of the specification' % n_dp,
+               'on the path [%s] the delimiter pair is %s: both halves are the same character of the specification, so the '
+               'argument `v{}` / `r()` is read up to the next OPENING character (a parse error, or a wrong extent)'
+               % (' & '.join(badp[0].cond_src())[-100:] if badp else '', unparse(badp[1]) if badp else ''),
+               construct='get_arg_parser_instance: delimiter pairs')
+
+    # ---- R02y: one notion of paragraph break
+    ctx.rule('R02y', 'the token reader decides "this white space contains a paragraph break" in one way -- at least two newline '
+                     'characters, `V.count(NL) >= 2` -- at every site that acts on it: where the paragraph token is produced '
+                     '(impl_peek_token) and where the white space after a macro or comment is cut back to its first line; a '
+                     'site with another test (a blank-line pattern that knows blanks and tabs only) lets a macro swallow a '
+                     'break that the other sites see, and the paragraph node vanishes', 3)
+    n_pb = 0
+    for q_, f_ in sorted(trm_.functions.items()):
+        if not q_.startswith('LatexTokenReader.'):
+            continue
+        for st_ in iter_own(f_):
+            cut = isinstance(st_, ast.Assign) and len(st_.targets) == 1 and isinstance(st_.targets[0], ast.Name) and \
+                isinstance(st_.value, ast.Subscript) and isinstance(st_.value.slice, ast.Slice) and \
+                st_.value.slice.lower is None and isinstance(st_.value.value, ast.Name) and \
+                st_.value.value.id == st_.targets[0].id and 'space' in st_.targets[0].id
+            par = isinstance(st_, ast.If) and any(isinstance(c_, ast.Call) and call_name(c_) == 'rfind' for c_ in ast.walk(st_)) \
+                and 'enable_double_newline_paragraphs' in unparse(st_.test)
+            if not (cut or par):
+                continue
+            n_pb += 1
+            v_ = st_.targets[0].id if cut else None
+            if cut:
+                atoms = {(unparse(a_), ap_) for t_, p_ in atomic_facts(st_) for a_, ap_ in symex._atoms(t_, p_)}
+            else:
+                atoms = {(unparse(a_), ap_) for a_, ap_ in symex._atoms(st_.test, True)}
+            okp = any(ap_ and re.match(r"^\w+\.count\('\\n'\) (>= 2|> 1)$", t_) and (v_ is None or t_.startswith(v_ + '.'))
+                      for t_, ap_ in atoms)
+            ctx.decide('R02y', okp, trm_, st_, '%s: paragraph break = two newlines' % q_,
+                       '%s acts on a paragraph break in %s under the test [%s], not `%s.count(NL) >= 2` like the other sites of '
+                       'the token reader: white space that the other sites take for a paragraph break (a blank line holding a '
+                       'carriage return or a form feed) is swallowed as the macro\'s trailing space here, and the paragraph '
+                       'break disappears from the tree' % (q_, v_ or 'the leading white space',
+                                                           ' & '.join(sorted(t_ for t_, ap_ in atoms if ap_))[:120], v_ or 'V'),
+                       construct='%s: paragraph-break test' % q_)
+    if n_pb < 3:
+        ctx.unknown('R02y', trm_, None, 'only %d paragraph-break sites found in the token reader' % n_pb,
+                    construct='paragraph-break sites')
+
     # ---- R02v: one notion of white space
     ctx.rule('R02v', 'code of the parser layer that looks at a raw source character to decide "is this white space" uses '
                      'str.isspace(), like the token reader: a comparison with a literal of blanks that lacks the newline makes a '
